@@ -91,6 +91,10 @@ MODULES = {
 # per-property kernel files (tools/kernels_Cxx.py) add their own modules
 import glob as _glob, importlib as _importlib, os as _os
 for _f in sorted(_glob.glob(_os.path.join(_os.path.dirname(_os.path.abspath(__file__)), 'kernels_*.py'))):
-    _m = _importlib.import_module(_os.path.basename(_f)[:-3])
-    MODULES.update(getattr(_m, 'MODULES', {}))
-    MODULE_DEPS.update(getattr(_m, 'MODULE_DEPS', {}))
+    try:
+        _m = _importlib.import_module(_os.path.basename(_f)[:-3])
+        MODULES.update(getattr(_m, 'MODULES', {}))
+        MODULE_DEPS.update(getattr(_m, 'MODULE_DEPS', {}))
+    except Exception as _e:      # a broken per-property file must not take the other properties down
+        IMPORT_ERRORS = globals().setdefault('IMPORT_ERRORS', {})
+        IMPORT_ERRORS[_os.path.basename(_f)] = repr(_e)
